@@ -185,6 +185,9 @@ func runLedger(r *Run, prop string) {
 	if prop == "C07" || prop == "C08" {
 		c07ForkBoundary(r)
 	}
+	if prop == "C07" {
+		c07StorageProofs(r)
+	}
 	if prop == "C09" {
 		c09Copies(r)
 		for i := 0; i < r.pick(30, 800); i++ {
